@@ -627,6 +627,7 @@ func Run(cfg hx.Config) error {
 		opVerUn(r, randBytes(rnd, "k:.-+0123456789", rnd.Intn(40)))
 	}
 	runSQL(r, cfg, rnd)
+	runWFN(r, cfg, rnd)
 	runJSON(r, cfg, rnd)
 	runScan(r, cfg, rnd)
 	// the zero Digest (recorded finding): it prints as "" which its own decoder rejects
